@@ -65,14 +65,15 @@ class CapturedPath:
     elif id(self) not in memo:
       path = []
       prev_edge = False
-      for item in self.items:
+      for i, item in enumerate(self.items):
         path, prev_edge = self._push_item_on_se_path(path, prev_edge, item,
-                                                     memo)
+                                                     memo, self.items[i:])
       memo[id(self)] = (path, prev_edge)
     path, prev_edge = memo[id(self)]
     return list(path), prev_edge
 
-  def _push_item_on_se_path(self, path, prev_edge, item, memo):
+  def _push_item_on_se_path(self, path, prev_edge, item, memo, items = None):
+    # items: the item and those which follow it in the list of the group
     if isinstance(item.line, str):
       raise gfapy.RuntimeError(
         "Captured path cannot be computed; a reference has not been resolved\n"+
@@ -93,7 +94,9 @@ class CapturedPath:
           "Line: {}\n".format(self)+
           "Item: {}".format(item.line))
       if not path:
-        self._push_first_edge_on_se_path(path, self.items, memo)
+        # (the edge is not necessarily the first item of the group: paths
+        # left without items may precede it)
+        self._push_first_edge_on_se_path(path, items if items else [item], memo)
       else:
         self._push_nonfirst_edge_on_se_path(path, item)
       prev_edge = True
